@@ -231,3 +231,22 @@ Example c08_observed :
   /\ boff (firstn 1 [97; 233; 128512; 233]) = 1%nat
   /\ dec_next (encode_char 1114111 ++ [7]) 5 = Ok (Some (9%nat, 1114111, [7], 9%nat)).
 Proof. vm_compute. repeat split; reflexivity. Qed.
+
+(* ---- every reported offset is a character boundary (Proofs/CwBoundaries.v) ---------------------------
+   For every built character-wise automaton of every kind, every search method, every match: start and
+   end are character boundaries of the haystack (0, its length, or the position of a non-continuation
+   byte), so slicing the haystack str at them cannot panic. *)
+From DV Require Import Model.Cli Proofs.CwBoundaries.
+
+Theorem cw_offsets_fall_on_character_boundaries :
+  forall (V : Type) (veqb : V -> V -> bool), (forall a b, veqb a b = true <-> a = b) ->
+  forall k nfb (pvs : list (list N * V)) (A : cw_automaton V),
+    (forall p v, In (p, v) pvs -> Forall scalar p) -> 4 * total_len V pvs <= U32_MAX - 1 ->
+    cw_build_with_values V k nfb pvs = Ok A ->
+  forall cs, Forall scalar cs ->
+  let h := encode_utf8 cs in
+  forall ms, cw_find_iter V A h = Ok ms \/ cw_find_overlapping_iter V A h = Ok ms
+             \/ cw_find_overlapping_no_suffix_iter V A h = Ok ms \/ cw_leftmost_find_iter V A h = Ok ms ->
+  forall s e v, In (s, e, v) ms -> is_char_boundary h s = true /\ is_char_boundary h e = true.
+Proof. exact cw_offsets_on_boundaries. Qed.
+Print Assumptions cw_offsets_fall_on_character_boundaries.
